@@ -151,54 +151,59 @@ def ops_unit(u):
         for offset in ((0, 8, -1) if u["k"] <= 2 else
                        (0, -1) if canonical else (0,)):
             text, info = render(tbl, offset)
-            cfg = f"ops{u['k']}/off{offset}"
-            gk = text
-            try:
-                g = grammar_from_string(text)
-                lr = build("lr", g, mon, tag=(ti, offset), prefer_shifts=False,
-                           prefer_shifts_over_empty=False, ws="")
-            except (Exception, BudgetExceeded) as e:    # noqa: BLE001
-                judge.deviation(None, cfg, gk, "",
-                                "Parser does not construct for a fully "
-                                "annotated operator grammar",
-                                {"type": type(e).__name__},
-                                {"grammar": text, "parser": "lr",
-                                 "options": {"prefer_shifts": False,
-                                             "prefer_shifts_over_empty": False}})
-                continue
-            glr = build("glr", grammar_from_string(text), mon,
-                        tag=(ti, offset, "g"), ws="")
-            st["tables"] += 1
-            for toks in exprs:
-                s = "".join(toks)
-                want = parse_expr(list(toks), info)
-                case = {"grammar": text, "parser": "lr", "input": s,
-                        "options": {"prefer_shifts": False, "ws": "",
-                                    "prefer_shifts_over_empty": False}}
-                o = parse(lr, s, mon)
-                st["evaluations"] += 1
-                if len(toks) >= 5:
-                    st["nontrivial"] += 1
-                if o.kind != "ok" or o.value != want:
-                    judge.deviation(None, cfg, gk, s,
-                                    "Parser result is not the operator-"
-                                    "precedence tree",
-                                    {"got": o.value if o.kind == "ok"
-                                     else o.brief(), "want": want}, case)
-                og = parse(glr, s, mon)
-                st["evaluations"] += 1
-                if og.kind != "ok":
-                    judge.deviation(None, cfg, gk, s, "GLRParser fails",
-                                    {"o": og.brief()}, dict(case, parser="glr"))
+            # SLR tables resolve the same conflicts from FOLLOW sets that
+            # all items share
+            for tk in (('LALR', 'SLR') if u['k'] <= 3 and offset == 0
+                       else ('LALR',)):
+                cfg = f"ops{u['k']}/off{offset}" + ("/SLR" if tk == "SLR" else "")
+                gk = text
+                try:
+                    g = grammar_from_string(text)
+                    lr = build("lr", g, mon, tag=(ti, offset, tk), tables=tk,
+                               prefer_shifts=False,
+                               prefer_shifts_over_empty=False, ws="")
+                except (Exception, BudgetExceeded) as e:    # noqa: BLE001
+                    judge.deviation(None, cfg, gk, "",
+                                    "Parser does not construct for a fully "
+                                    "annotated operator grammar",
+                                    {"type": type(e).__name__},
+                                    {"grammar": text, "parser": "lr",
+                                     "options": {"prefer_shifts": False,
+                                                 "prefer_shifts_over_empty": False}})
                     continue
-                fv = ForestView(og.value.result)
-                n = fv.count()
-                if n != 1 or glr.call_actions(og.value[0]) != want:
-                    judge.deviation(None, cfg, gk, s,
-                                    "GLRParser does not return exactly the "
-                                    "operator-precedence tree",
-                                    {"trees": str(n), "want": want},
-                                    dict(case, parser="glr"))
+                glr = build("glr", grammar_from_string(text), mon,
+                            tag=(ti, offset, "g", tk), tables=tk, ws="")
+                st["tables"] += 1
+                for toks in exprs:
+                    s = "".join(toks)
+                    want = parse_expr(list(toks), info)
+                    case = {"grammar": text, "parser": "lr", "input": s,
+                            "options": {"prefer_shifts": False, "ws": "", "tables": tk,
+                                        "prefer_shifts_over_empty": False}}
+                    o = parse(lr, s, mon)
+                    st["evaluations"] += 1
+                    if len(toks) >= 5:
+                        st["nontrivial"] += 1
+                    if o.kind != "ok" or o.value != want:
+                        judge.deviation(None, cfg, gk, s,
+                                        "Parser result is not the operator-"
+                                        "precedence tree",
+                                        {"got": o.value if o.kind == "ok"
+                                         else o.brief(), "want": want}, case)
+                    og = parse(glr, s, mon)
+                    st["evaluations"] += 1
+                    if og.kind != "ok":
+                        judge.deviation(None, cfg, gk, s, "GLRParser fails",
+                                        {"o": og.brief()}, dict(case, parser="glr"))
+                        continue
+                    fv = ForestView(og.value.result)
+                    n = fv.count()
+                    if n != 1 or glr.call_actions(og.value[0]) != want:
+                        judge.deviation(None, cfg, gk, s,
+                                        "GLRParser does not return exactly the "
+                                        "operator-precedence tree",
+                                        {"trees": str(n), "want": want},
+                                        dict(case, parser="glr"))
             if not samples:
                 samples.append({"grammar": text, "expressions": len(exprs),
                                 "largest": "".join(exprs[-1])})
